@@ -732,15 +732,19 @@ REGISTRY = {
                       'radixes, reaches the target within 1e-6 up to one '
                       'global phase, and uses only gates of the model; four '
                       'cases start from the one-qubit circuit compile() '
-                      'hands over for members of a list input; bounded '
+                      'hands over for members of a list input; five '
+                      'sequences of 1-4 mixed-width, mixed-kind inputs go '
+                      'through the real compile() (one result per input, in '
+                      'input order, each reaching its own target); bounded '
                       'stand-in, nothing is proved',
         'level_note': 'convergence of numerical synthesis for every input '
                       'cannot be discharged by any verifier here: this is a '
                       'bounded run of the optimiser on fixed targets and '
                       'seeds (a different target may still fail to '
-                      'converge); compile()\'s own argument handling, the '
-                      'Compiler client and the ordering of list results are '
-                      'not exercised',
+                      'converge); compile() itself is called for the '
+                      'sequence cases only, with a synchronous stand-in for '
+                      'the runtime connection (the Compiler client and the '
+                      'multi-process runtime are the subject of C07/C13)',
         'parts': [
             {'kind': 'custom', 'module': 'pybound.c03_checks'},
         ],
